@@ -35,14 +35,23 @@ FORMS = ["lol_dense", "lol_coo", "lol_coo_zeros", "dict", "dict_zeros", "list_np
 OP_ROUTES = ["sort_roundtrip", "transpose2", "filter_all_obs", "filter_all_samp", "subsample_full_samp",
              "subsample_full_obs", "copy"]
 # histories that change the content; the partner is the dense construction of whatever content they reached
-CHANGING_ROUTES = ["subsample_partial_samp", "subsample_partial_obs", "filter_some_obs"]
+CHANGING_ROUTES = ["subsample_partial_samp", "subsample_partial_obs", "filter_some_obs",
+                   # ONE non-monotone reordering: the CSR layout keeps unsorted column indices
+                   "sort_samp_once", "sort_obs_once",
+                   # a new metadata category on one ID only
+                   "add_md_one_obs", "add_md_one_samp"]
 ALL_ROUTES = ["dense"] + CTOR_SPARSE + FORMS + OP_ROUTES
 
 ACCESSORS = ["nnz", "data_obs", "data_samp", "iter_obs", "iter_samp", "matrix_data", "get_value", "sum",
-             "metadata"]
+             "metadata",
+             # exports and conversions are read-only too
+             "to_tsv", "to_tsv_key", "to_json", "to_hdf5", "to_dataframe", "md_df_obs", "md_df_samp", "str", "repr"]
 # one representative per layout effect (nnz / to-CSR / to-CSC / COO-only / none)
-ACC_CLASSES = {"nnz": ["nnz"], "vecObs": ["data_obs", "iter_obs"], "vecSamp": ["data_samp", "iter_samp"],
-               "getValue": ["get_value"], "plain": ["matrix_data", "sum", "metadata"]}
+ACC_CLASSES = {"nnz": ["nnz"], "vecObs": ["data_obs", "iter_obs", "to_tsv_key", "str", "to_tsv"],
+               "vecSamp": ["data_samp", "iter_samp", "to_json", "to_hdf5"],
+               "getValue": ["get_value"],
+               "plain": ["matrix_data", "sum", "metadata", "to_dataframe", "md_df_obs", "md_df_samp", "repr"]}
+MAY_RAISE = {"to_hdf5": ValueError, "md_df_obs": KeyError, "md_df_samp": KeyError}
 
 VALUE_CLASSES = ("count", "smallcount", "dyadic", "neg")
 
@@ -235,6 +244,19 @@ def build_operand(spec, route):
         t = core.build(spec, "csc" if axis == "sample" else "dense").subsample(n, axis=axis, seed=int(arr.sum()) % 7)
         if t.shape[0] == 0 or t.shape[1] == 0:
             raise Skip()
+    elif route in ("sort_samp_once", "sort_obs_once"):
+        axis = "sample" if route == "sort_samp_once" else "observation"
+        ids = list(spec["samp"] if axis == "sample" else spec["obs"])
+        if len(ids) < 2:
+            raise Skip()
+        perm = ids[1:][::-1] + ids[:1] if len(ids) > 2 else ids[::-1]
+        t = core.build(spec, "dense").sort_order(perm, axis=axis)
+        t.type = spec.get("type")
+    elif route in ("add_md_one_obs", "add_md_one_samp"):
+        axis = "sample" if route.endswith("samp") else "observation"
+        ids = list(spec["samp"] if axis == "sample" else spec["obs"])
+        t = core.build(spec, "csr")
+        t.add_metadata({ids[len(ids) // 2]: {"extra_cat": "v"}}, axis=axis)
     elif route == "filter_some_obs":
         if len(spec["obs"]) < 2:
             raise Skip()
@@ -270,30 +292,103 @@ def content(t):
     return {k: o[k] for k in ("obs", "samp", "rows", "omd", "smd", "type")}
 
 
-def do_accessor(t, name, k):
+def lacking_key(t):
+    """an observation-metadata key that some IDs lack (else any key, else a key nobody has)"""
+    md = t.metadata(axis="observation")
+    if md is None:
+        return "nokey"
+    keys = sorted({k for e in md for k in e})
+    for k in keys:
+        if any(k not in e for e in md):
+            return k
+    return keys[0] if keys else "nokey"
+
+
+def hdf5_write_only(t):
+    import h5py
+    os.makedirs(TMP, exist_ok=True)
+    _h5n[0] += 1
+    path = os.path.join(TMP, "a%d_%d.h5" % (os.getpid(), _h5n[0]))
+    try:
+        with h5py.File(path, "w") as f:
+            t.to_hdf5(f, "c16")
+    finally:
+        if os.path.exists(path):
+            os.remove(path)
+
+
+def do_accessor(t, name, k, cells=None):
+    """run one read-only accessor; returns the name the model should use (`<name>_raised` when the accessor
+    refused the table); get_value answers are appended to `cells`"""
     obs = t.ids(axis="observation")
     samp = t.ids()
     o = obs[k % len(obs)]
     s = samp[k % len(samp)]
-    if name == "nnz":
-        return t.nnz
-    if name == "data_obs":
-        return t.data(o, axis="observation")
-    if name == "data_samp":
-        return t.data(s, axis="sample")
-    if name == "iter_obs":
-        return list(t.iter(axis="observation"))
-    if name == "iter_samp":
-        return list(t.iter())
-    if name == "matrix_data":
-        return t.matrix_data.toarray()
-    if name == "get_value":
-        return t.get_value_by_ids(o, s)
-    if name == "sum":
-        return (t.sum(), t.sum("observation"), t.sum("sample"))
-    if name == "metadata":
-        return (t.metadata(o, axis="observation"), t.metadata(s, axis="sample"), t.metadata())
-    raise ValueError(name)
+    try:
+        if name == "nnz":
+            t.nnz
+        elif name == "data_obs":
+            t.data(o, axis="observation")
+        elif name == "data_samp":
+            t.data(s, axis="sample")
+        elif name == "iter_obs":
+            list(t.iter(axis="observation"))
+        elif name == "iter_samp":
+            list(t.iter())
+        elif name == "matrix_data":
+            t.matrix_data.toarray()
+        elif name == "get_value":
+            v = t.get_value_by_ids(o, s)
+            if cells is not None:
+                cells.append([str(o), str(s), core.frac(v)])
+        elif name == "sum":
+            (t.sum(), t.sum("observation"), t.sum("sample"))
+        elif name == "metadata":
+            (t.metadata(o, axis="observation"), t.metadata(s, axis="sample"), t.metadata())
+        elif name == "to_tsv":
+            t.to_tsv()
+        elif name == "to_tsv_key":
+            key = lacking_key(t)
+            t.to_tsv(header_key=key, header_value=key)
+        elif name == "to_json":
+            t.to_json("c16")
+        elif name == "to_hdf5":
+            hdf5_write_only(t)
+        elif name == "to_dataframe":
+            t.to_dataframe(dense=bool(k % 2))
+        elif name == "md_df_obs":
+            t.metadata_to_dataframe("observation")
+        elif name == "md_df_samp":
+            t.metadata_to_dataframe("sample")
+        elif name == "str":
+            str(t)
+        elif name == "repr":
+            repr(t)
+        else:
+            raise ValueError(name)
+    except (KeyError, ValueError) as e:
+        # refusing a table (no metadata to tabulate, categories that HDF5 cannot hold) is allowed; changing it is not
+        if name in MAY_RAISE and isinstance(e, MAY_RAISE[name]):
+            if name == "to_hdf5":
+                # the writer handles the observation axis (CSR) first, then the sample axis (CSC): where it
+                # refuses decides which layout is left behind
+                omd = t.metadata(axis="observation")
+                if omd is not None and len({tuple(sorted(e)) for e in omd}) > 1:
+                    return "to_hdf5_raised"
+                return "to_hdf5_raised_samp"
+            return name + "_raised"
+        raise
+    return name
+
+
+def fresh_queries(t):
+    """per-cell, then per-ID answers of a table nothing else has touched yet (layout as built)"""
+    obs = [str(x) for x in t.ids(axis="observation")]
+    samp = [str(x) for x in t.ids()]
+    cells = [[o, s, core.frac(t.get_value_by_ids(o, s))] for o in obs for s in samp]
+    vecs = [["observation", o, fr_list(t.data(o, axis="observation"))] for o in obs]
+    vecs += [["sample", x, fr_list(t.data(x, axis="sample"))] for x in samp]
+    return cells, vecs
 
 
 def checkpoint(a, b):
@@ -450,7 +545,12 @@ def exports_of(t, md_key):
     ex.append(("json", jt))
     q.append(("json_header", jrest))
     q.append(("json_document_without_date", jall))
-    h1, h2, attrs = hdf5_export(t)
+    try:
+        h1, h2, attrs = hdf5_export(t)
+    except ValueError as e:
+        # metadata categories that differ between IDs cannot be written; both operands must then refuse
+        q.append(("hdf5_refused", type(e).__name__))
+        return ex, q
     ex.append(("hdf5", h1))
     ex.append(("hdf5_sample_matrix", h2))
     q.append(("hdf5_attrs", attrs))
@@ -485,10 +585,26 @@ def run_pair(ctx, case, tags=()):
             ctx.count("ctor-input:stored-zeros")
         if f and not f.get("in_sorted", True):
             ctx.count("ctor-input:unsorted-indices")
+    # per-cell / per-ID queries first, on twins built the same way that nothing has touched
+    if case["spec_b"] is None:
+        a2 = build_operand(case["spec_a"], case["route_a"])[0]
+        b2 = build_operand(spec_of_table(a2), case["route_b"])[0]
+    else:
+        a2 = build_operand(case["spec_a"], case["route_a"])[0]
+        b2 = build_operand(case["spec_b"], case["route_b"])[0]
+    for t2 in (a2, b2):
+        m2 = t2.matrix_data
+        if m2.getformat() == "csr" and not m2.has_sorted_indices:
+            ctx.count("fresh-queries-on-unsorted-csr")
+    cells_a, vecs_a = fresh_queries(a2)
+    cells_b, vecs_b = fresh_queries(b2)
     ca, cb = content(a), content(b)
     checks = [checkpoint(a, b)]
+    resolved = []
     for k, (side, name) in enumerate(steps):
-        do_accessor(b if side == 1 else a, name, k)
+        rn = do_accessor(b if side == 1 else a, name, k, cells_b if side == 1 else cells_a)
+        resolved.append([side, rn])
+        ctx.count("accessor=" + rn)
         checks.append(checkpoint(a, b))
     exports, qs = [], []
     fa_after, fb_after = fmt_label(a.matrix_data), fmt_label(b.matrix_data)
@@ -501,18 +617,21 @@ def run_pair(ctx, case, tags=()):
         else:
             qs = [[n, x, y] for (n, x), (_, y) in zip(qa, qb)]
         if case.get("exports"):
-            omd = case["spec_a"].get("omd")
-            md_key = "grp" if (omd and all("grp" in e for e in omd)) else None
+            md_key = lacking_key(a) if a.metadata(axis="observation") is not None else None
             ea, xa = exports_of(a, md_key)
             eb, xb = exports_of(b, md_key)
+            names = [[n for n, _ in ea] + [n for n, _ in xa], [n for n, _ in eb] + [n for n, _ in xb]]
+            qs.append(["export-names", json.dumps(names[0]), json.dumps(names[1])])
             exports = [[n, x, y] for (n, x), (_, y) in zip(ea, eb)]
             qs += [[n, x, y] for (n, x), (_, y) in zip(xa, xb)]
             ctx.count("exports-compared")
-    req = {"op": "pair", "steps": steps, "checks": checks, "exports": exports, "queries": qs,
+    req = {"op": "pair", "steps": resolved, "checks": checks, "exports": exports, "queries": qs,
            "a": {"content": ca, "content_after": content(a), "model_in": mia, "fmt_after": fa_after,
-                 "fmt_final": fmt_label(a.matrix_data), "layout_after": flat(a.matrix_data)},
+                 "fmt_final": fmt_label(a.matrix_data), "layout_after": flat(a.matrix_data),
+                 "cells": cells_a, "vecs": vecs_a},
            "b": {"content": cb, "content_after": content(b), "model_in": mib, "fmt_after": fb_after,
-                 "fmt_final": fmt_label(b.matrix_data), "layout_after": flat(b.matrix_data)}}
+                 "fmt_final": fmt_label(b.matrix_data), "layout_after": flat(b.matrix_data),
+                 "cells": cells_b, "vecs": vecs_b}}
     r = ctx.driver.ask(req)
     ctx.count("content=" + ("same" if same else "different"))
     ctx.count("steps=%d" % len(steps))
@@ -624,8 +743,35 @@ DEFECT_SPEC = {"obs": ["o1", "o2"], "samp": ["s1", "s2"], "rows": [[1.0, 0.0], [
                "omd": None, "smd": None, "type": None}
 
 
-def gen_spec(rng, quick=True):
+def nonuniform_md(rng, ids):
+    """per-ID metadata whose key sets differ: every key is lacked by at least one ID when there are two IDs"""
+    md = []
+    for i, _ in enumerate(ids):
+        e = {}
+        if rng.random() < 0.6:
+            e["grp"] = rng.choice(["a", "b", "c"])
+        if rng.random() < 0.5:
+            e["depth"] = rng.randint(0, 5)
+        if rng.random() < 0.3:
+            e["taxonomy"] = ["k__%s" % rng.choice("AB"), "p__%s" % rng.choice("xyz")]
+        md.append(e)
+    if len(ids) >= 2:
+        md[0]["only0"] = "x"
+        md[-1].pop("grp", None)
+        md[0].setdefault("grp", "a")
+    elif not md[0]:
+        md[0]["grp"] = "a"
+    return md
+
+
+def gen_spec(rng, quick=True, nonuniform=None):
     spec = core.gen_spec(rng, max_n=4 if quick else 7, max_m=4 if quick else 7, classes=VALUE_CLASSES)
+    if nonuniform is None:
+        nonuniform = rng.random() < 0.35
+    if nonuniform:
+        spec["omd"] = nonuniform_md(rng, spec["obs"])
+        if rng.random() < 0.5:
+            spec["smd"] = nonuniform_md(rng, spec["samp"])
     return spec
 
 
@@ -650,11 +796,14 @@ def gen_equal_totals_spec(rng, axis):
     return None
 
 
-def mutate(rng, spec):
+def mutate(rng, spec, only=None):
     """a spec differing from `spec` in exactly one value / ID / order / metadata entry / type"""
     s = copy.deepcopy(spec)
     n, m = len(s["obs"]), len(s["samp"])
-    kinds = ["value", "value_to_zero", "value_from_zero", "obs_id", "samp_id", "type", "md_value", "md_absent"]
+    kinds = ["value", "value_to_zero", "value_from_zero", "obs_id", "samp_id", "type", "md_value", "md_absent",
+             "md_extra_key", "md_extra_key"]
+    if only is not None:
+        kinds = [only]
     if n > 1:
         kinds += ["obs_order", "obs_order_with_data"]
     if m > 1:
@@ -710,9 +859,24 @@ def mutate(rng, spec):
             ax = rng.choice([a for a in ("omd", "smd") if s.get(a)] or [None])
             if ax is None:
                 continue
-            e = rng.choice(s[ax])
+            cand = [e for e in s[ax] if e]
+            if not cand:
+                continue
+            e = rng.choice(cand)
             k = rng.choice(sorted(e))
             e[k] = "changed" if not isinstance(e[k], list) else e[k] + ["extra"]
+            return kind, s
+        if kind == "md_extra_key":
+            # one ID gets one more key; everything else identical (metadata created when the axis has none)
+            ax = rng.choice(["omd", "smd"])
+            ids = s["obs"] if ax == "omd" else s["samp"]
+            if not s.get(ax):
+                if len(ids) < 2:
+                    continue
+                s[ax] = [{"k": "v"} for _ in ids]
+                spec[ax] = [{"k": "v"} for _ in ids]      # the base gets the same metadata (caller's spec is fresh)
+            e = rng.choice(s[ax])
+            e["zz_extra"] = rng.choice(["x", 1])
             return kind, s
         if kind == "md_absent":
             ax = rng.choice(["omd", "smd"])
@@ -836,11 +1000,16 @@ def run(ctx):
     spec2 = {"obs": ["a", "b", "c"], "samp": ["x", "y"], "rows": [[0.0, 2.0], [1.5, 0.0], [4.0, 3.0]],
              "omd": [{"grp": "a"}, {"grp": "b"}, {"grp": "a"}], "smd": None, "type": "OTU table"}
     spec2d = copy.deepcopy(spec2); spec2d["rows"][2][0] = 5.0
+    # metadata whose key sets differ between IDs (an export that looks a key up must not insert it)
+    spec3 = {"obs": ["a", "b", "c"], "samp": ["x", "y", "z"], "rows": [[0.0, 2.0, 1.0], [1.5, 0.0, 0.0], [4.0, 3.0, 7.0]],
+             "omd": [{"grp": "a", "only0": "x"}, {"depth": 2}, {"grp": "b"}],
+             "smd": [{"site": "gut"}, {"ph": 7}, {"site": "skin", "ph": 6}], "type": None}
     for steps in all_class_steps(max_len):
         run_pair(ctx, pair_case(DEFECT_SPEC, "csr_zeros", DEFECT_SPEC, "dense", steps, "equal"), ("interleaving",))
         run_pair(ctx, pair_case(spec2, "csr_unsorted", spec2, "transpose2", steps, "equal"), ("interleaving",))
         if len(steps) <= 2:
             run_pair(ctx, pair_case(spec2, "lol_coo_zeros", spec2d, "csc", steps, "differs"), ("interleaving",))
+            run_pair(ctx, pair_case(spec3, "copy", spec3, "csr_unsorted", steps, "equal"), ("interleaving", "nonuniform-md"))
     if quick:
         for _ in range(150):
             run_pair(ctx, pair_case(spec2, rng.choice(CTOR_SPARSE), spec2, rng.choice(FORMS[:8]), gen_steps(rng, 3),
@@ -886,6 +1055,24 @@ def run(ctx):
                                 gen_steps(rng, rng.choice([0, 0, 1, 2])), "equal", exports=(k % 10 == 0)),
                  ("changing-history",))
 
+    # 4c. one extra metadata key on one ID, compared both ways round (smaller table on the left and on the right),
+    #     built by construction and by add_metadata
+    for k in range(60 if quick else 1500):
+        spec = gen_spec(rng, quick)
+        kind, other = mutate(rng, spec, only="md_extra_key")
+        if kind is None:
+            continue
+        ra = rng.choice(["dense", "csr", "csc", "copy", "lol_dense"])
+        rb = rng.choice(["dense", "csr_zeros", "coo", "transpose2"])
+        st = gen_steps(rng, rng.choice([0, 0, 1]))
+        run_pair(ctx, pair_case(spec, ra, other, rb, st, "differs"), ("single-difference", "mutation=md_extra_key", "small-left"))
+        run_pair(ctx, pair_case(other, rb, spec, ra, st, "differs"), ("single-difference", "mutation=md_extra_key", "big-left"))
+        route = rng.choice(["add_md_one_obs", "add_md_one_samp"])
+        run_pair(ctx, pair_case(spec, ra, spec, route, st, "differs"), ("single-difference", "mutation=add_metadata", "small-left"))
+        run_pair(ctx, pair_case(spec, route, spec, ra, st, "differs"), ("single-difference", "mutation=add_metadata", "big-left"))
+        ctx.count("single-difference=md_extra_key", 2)
+        ctx.count("single-difference=add_metadata", 2)
+
     # 5. single-difference pairs
     for k in range(320 if quick else 6000):
         spec = gen_spec(rng, quick)
@@ -895,8 +1082,11 @@ def run(ctx):
         ra = rng.choice(["dense"] + CTOR_SPARSE + ["lol_coo_zeros", "dict_zeros", "sort_roundtrip", "copy"])
         rb = rng.choice(["dense"] + CTOR_SPARSE + ["lol_dense", "list_nparray", "transpose2"])
         ctx.count("single-difference=" + kind)
-        run_pair(ctx, pair_case(spec, ra, other, rb, gen_steps(rng, rng.choice([0, 0, 1, 2])), "differs"),
-                 ("single-difference", "mutation=" + kind))
+        st = gen_steps(rng, rng.choice([0, 0, 1, 2]))
+        if rng.random() < 0.5:
+            run_pair(ctx, pair_case(spec, ra, other, rb, st, "differs"), ("single-difference", "mutation=" + kind))
+        else:
+            run_pair(ctx, pair_case(other, rb, spec, ra, st, "differs"), ("single-difference", "mutation=" + kind))
 
     # 6. kernel level: dataEq vs the real _data_equality, eliminateZeros vs scipy's eliminate_zeros
     for k in range(900 if quick else 30000):
